@@ -243,6 +243,16 @@ def known(ctx):
     return [f for f in lib.known_ids(ctx, "C12") if f not in assume_fixed]
 
 
+def sweep_scratch():
+    """A thread abandoned after a hang may still be writing below the driver's scratch directory when the driver
+    removes it at exit and so bring it back: remove the directories of driver processes that no longer exist."""
+    import glob, shutil
+    for d in glob.glob("/dev/shm/drv_multilayer.*") + glob.glob("/tmp/drv_multilayer.*"):
+        pid = d.rsplit(".", 1)[1]
+        if pid.isdigit() and not os.path.exists(f"/proc/{pid}"):
+            shutil.rmtree(d, ignore_errors=True)
+
+
 def run(ctx):
     import time
     stage0 = ctx.stage
@@ -345,6 +355,7 @@ def run(ctx):
                         "the probes are API calls themselves: they refresh recency in memory layers and make the disk layer notice a missing file",
                         "a put into a layer leaves the entry retrievable by the immediately following get_from_layer (max_entries >= 1)",
                         "time: TTLs are 1 h or 25 ms followed by a 110 ms sleep; background cleanup tasks are never polled by the driver's runtime"]
+    sweep_scratch()
     return lib.finish(ctx, "model_checking",
                       rule="programs = complete operation sequences of length D over a family's alphabet enumerated by TLC from the code-shaped "
                            "machine of MultiLayer.tla (history variable, canonical key/value naming), truncated at a predicted hang, plus seeded random "
